@@ -33,6 +33,7 @@ import (
 	"github.com/go-openapi/runtime/logger"
 	"github.com/go-openapi/runtime/middleware/untyped"
 	"github.com/go-openapi/runtime/security"
+	"github.com/go-openapi/runtime/verifhook"
 )
 
 // Debug when true turns on verbose logging
@@ -419,6 +420,7 @@ func (c *Context) RouteInfo(request *http.Request) (*MatchedRoute, *http.Request
 	}
 
 	if route, ok := c.LookupRoute(request); ok {
+		verifhook.At("mw.route.found")
 		rCtx = stdContext.WithValue(rCtx, ctxMatchedRoute, route)
 		return route, request.WithContext(rCtx), ok
 	}
@@ -490,6 +492,7 @@ func (c *Context) Authorize(request *http.Request, route *MatchedRoute) (interfa
 		}
 	}
 
+	verifhook.At("mw.auth.beforeStore")
 	rCtx = request.Context()
 
 	rCtx = stdContext.WithValue(rCtx, ctxSecurityPrincipal, usr)
@@ -541,6 +544,7 @@ func (c *Context) Respond(rw http.ResponseWriter, r *http.Request, produces []st
 
 	var format string
 	format, r = c.ResponseFormat(r, offers)
+	verifhook.At("mw.respond.beforeProducer")
 	rw.Header().Set(runtime.HeaderContentType, format)
 
 	if resp, ok := data.(Responder); ok {
